@@ -137,7 +137,7 @@ NOTES = {
     'S-C21b': 'first missed: public locks failed every statement, and nothing checked the copy-recovery at the MAX_TRIES threshold; commit-only locks and a threshold sub-check added',
     'S-C04b': 'also caught by C43 (submission beyond the stop point)',
     'S-C27b': 'first missed: no C27 run had an unsatisfied prerequisite whose output was in the DB; the workload now removes a partially satisfied waiting task before the reload (another parent respawns it)',
-    'S-C10b': 'first missed: the poll that must follow a backward message was recorded but never checked; C10 now requires a poll of that job within 12 iterations unless the task left the pool or went back to waiting',
+    'S-C10b': 'first missed: the poll that must follow a backward message was recorded but never checked; C10 now requires the jobs-poll command for that job to have run, be running or be queued in the process pool by the end of the iteration that handled the message, unless the task left the pool or went back to waiting (a first version that waited 12 iterations for the poll alarmed falsely in the thorough tier when the command queued behind others)',
     'S-C43b': 'first missed (C43 and C19): no run combined a stop point with a stop task; C43 now does in half of its stop-task cases and requires the unreached stop point to survive in the DB',
     'S-C09b': 'first caught only by C27 (outputs across a reload); C09 then got a mid-run reload in a third of its cases, which catches it and also found the genuine defect f3b13e3',
     'S-C01b': 'caught by C09 and C10; C01 does not see it (with message loss its closure check only gives a lower bound)',
